@@ -15,7 +15,11 @@
 *)
 EXTENDS Integers, Sequences, FiniteSets, TLC
 CONSTANTS MaxRows
-HCells == {"a", "b", "bad", "na", "off", "dly", "on", "doff"}    \* on: Onset of the definition; doff: its Offset shifted by Delay
+HCells == {"a", "b", "bad", "na", "off", "dly", "on", "doff", "ona", "offa"}
+   \* on: Onset of the definition; doff: its Offset shifted by Delay; ona / offa: the marker AND tag a in one cell - with category a
+   \* the assembled row repeats the tag (a row-level error in a row whose cells are each fine) and the marker still takes effect
+OnCells == {"on", "ona"}
+OffCells == {"off", "doff", "offa"}
 CCells == {"a", "b", "bad", "na", "unk"}
 VARIABLES rows,      \* Seq([onset, h, c])   onset: 0 = n/a, otherwise a distinct positive time
           hasOnset   \* the file has an onset column at all
@@ -40,17 +44,17 @@ Timed(t, i) == hasOnset /\ t[i].onset # 0
 EffTime(t, i) == t[i].onset * 10 + (IF t[i].h = "doff" THEN 15 ELSE 0)
 \* rows whose temporal marker takes part in the time line: timed and free of cell errors
 InLine(t, i) == Timed(t, i) /\ Clean(t, i)
-OnsetTimes(t) == {EffTime(t, i) : i \in {j \in 1..Len(t) : InLine(t, j) /\ t[j].h = "on"}}
-OffsetTimes(t) == {EffTime(t, i) : i \in {j \in 1..Len(t) : InLine(t, j) /\ t[j].h \in {"off", "doff"}}}
+OnsetTimes(t) == {EffTime(t, i) : i \in {j \in 1..Len(t) : InLine(t, j) /\ t[j].h \in OnCells}}
+OffsetTimes(t) == {EffTime(t, i) : i \in {j \in 1..Len(t) : InLine(t, j) /\ t[j].h \in OffCells}}
 \* the scope is open just before time x: some Onset earlier with no Offset in between
 Open(t, x) == \E s \in OnsetTimes(t) : s < x /\ ~\E u \in OffsetTimes(t) : s < u /\ u < x
 RowErr(t, i) == IF ~Clean(t, i) THEN {}
-                ELSE (IF t[i].h \in {"a", "b"} /\ t[i].c = t[i].h THEN {<<"TAG_EXPRESSION_REPEATED", FileRow(i), "">>} ELSE {})
+                ELSE (IF (t[i].h \in {"a", "b"} /\ t[i].c = t[i].h) \/ (t[i].h \in {"ona", "offa"} /\ t[i].c = "a") THEN {<<"TAG_EXPRESSION_REPEATED", FileRow(i), "">>} ELSE {})
                      \* an Offset is unmatched exactly when no Onset is open at its effective time
-                     \cup (IF t[i].h \in {"off", "doff"} /\ Timed(t, i) /\ ~Open(t, EffTime(t, i))
+                     \cup (IF t[i].h \in OffCells /\ Timed(t, i) /\ ~Open(t, EffTime(t, i))
                            THEN {<<"TEMPORAL_TAG_ERROR", FileRow(i), "">>} ELSE {})
                      \* temporal tags need a time
-                     \cup (IF t[i].h \in {"off", "doff", "on", "dly"} /\ ~Timed(t, i) THEN {<<"TEMPORAL_TAG_ERROR", FileRow(i), "">>} ELSE {})
+                     \cup (IF t[i].h \in OffCells \cup OnCells \cup {"dly"} /\ ~Timed(t, i) THEN {<<"TEMPORAL_TAG_ERROR", FileRow(i), "">>} ELSE {})
 Structure(t, i) == IF t[i].c = "unk" THEN {<<"SIDECAR_KEY_MISSING", FileRow(i), "cat">>} ELSE {}
 Errors(t) == UNION {CellErr(t, i) \cup RowErr(t, i) : i \in 1..Len(t)}
 Warnings(t) == UNION {Structure(t, i) : i \in 1..Len(t)}
